@@ -85,7 +85,7 @@ class DefaultClustering(ClusteringStrategy):
             if sampling.should_sample(forest, self.sample_size)
             else forest
         )
-        main_column = _resolve_column_id(forest, self.main_column) if self.main_column else None
+        main_column = _resolve_column_id(forest, self.main_column) if self.main_column is not None else None
         clustering_context = _clustering_context(main_column=main_column, forest=sampled_forest)
         clusters = solver.solve(clustering_context, self.max_weight, self.merge_threshold, self.solver_alpha)
         return clusters, clustering_context.entropy_1dim
